@@ -531,11 +531,19 @@ func genCore(prop string, seed uint64, tier string, g genCfg) *Scenario {
 				if r.Intn(1000) < g.pMs {
 					o.EFlag |= efMs
 					o.Expried = genMs(r)
+					// the unlimited flag together with a unit flag, in one of seven such requests (decided
+					// by the value drawn, so that the other draws of the run stay what they were)
+					if o.Expried%7 == 0 && g.pUnlim > 0 {
+						o.EFlag |= efUnlim
+					}
 				} else if r.Intn(1000) < g.pMinute {
 					o.EFlag |= efMinute
 					o.Expried = uint16(1 + r.Intn(2))
 					if g.minuteVals != nil {
 						o.Expried = pickU16(r, g.minuteVals)
+					}
+					if (int(o.Expried)+o.Key+o.Lid)%5 == 0 && g.pUnlim > 0 {
+						o.EFlag |= efUnlim
 					}
 				} else if r.Intn(1000) < g.pUnlim {
 					o.EFlag |= efUnlim
